@@ -4,7 +4,7 @@
 # the copy (VERIF_REPO), prints their verdict lines, removes the copy.
 set -u
 patch=$(readlink -f "$1"); shift
-d=$(mktemp -d /var/tmp/vs/mut.XXXXXX) || exit 2
+mkdir -p /var/tmp/vs; d=$(mktemp -d /var/tmp/vs/mut.XXXXXX) || exit 2
 mkdir -p "$d"
 rsync -a --exclude __pycache__ /repo/pennylane "$d"/
 if ! (cd "$d" && patch -p1 -s < "$patch"); then echo "PATCH-FAILED"; rm -rf "$d"; exit 2; fi
